@@ -438,6 +438,10 @@ def nnx_history():
           st.integers(1, 3), st.sampled_from([None, None] + NAMES),
           st.booleans(), st.booleans())),
       st.tuples(st.just('restore'), st.just(0)),
+      # decorator form: split for the duration of one call, which may raise
+      st.tuples(st.just('split_call'), st.tuples(
+          st.integers(1, 3), st.sampled_from([None] + NAMES), st.booleans(),
+          st.booleans())),
       st.tuples(st.just('reseed'), st.sampled_from(NAMES + ['default'])),
       st.tuples(st.just('getitem'), st.sampled_from(NAMES + ['other'])),
   )
@@ -451,7 +455,8 @@ def nnx_history():
         quick_shards=4,
         rule='histories (3-25 steps) of stream draws (named, missing->default,'
         ' rngs(), rngs[name]), split_rngs (all streams or only=one, splits as '
-        'int or tuple, squeeze) / restore_rngs, reseed (seed given '
+        'int or tuple, squeeze) / restore_rngs, the decorator form around '
+        'a call that returns or raises, reseed (seed given '
         'as an int or as a key array) on an '
         'nnx.Rngs with an optional default and 0-3 named streams (distinct '
         'seeds); model = stream -> (seed, count); every key equals fold_in('
@@ -577,6 +582,58 @@ def nnx_rngs_history(case, ctx):
           hand_out(L.key_data(exp[j]), ('split', n, seed, count, j))
         model[n][1] += 1          # the source key was consumed
       labels.add('split')
+    elif op == 'split_call':
+      if backups is not None or not model:
+        continue
+      n_, only, squeeze, raises = arg
+      squeeze = squeeze and n_ == 1
+      kw = {}
+      if only is not None:
+        kw['only'] = only
+      if squeeze:
+        kw['squeeze'] = True
+      seen_inside = {}
+      class Boom(Exception):
+        pass
+      @nnx.split_rngs(splits=n_, **kw)
+      def inner(r):
+        for nm in model:
+          if only is None or nm == only:
+            seen_inside[nm] = getattr(r, nm).key.value
+        if raises:
+          raise Boom()
+        return 0
+      with sut('split_rngs (decorator)'):
+        try:
+          inner(rngs)
+        except Boom:
+          pass
+      for nm, (seed, count) in model.items():
+        if only is not None and nm != only:
+          continue
+        src = jax.random.fold_in(jax.random.key(seed), jnp.uint32(count))
+        exp = jax.random.split(src, n_)
+        got = seen_inside.get(nm)
+        require(got is not None and np.array_equal(
+            jax.random.key_data(got if not squeeze else got[None]),
+            jax.random.key_data(exp)), lambda: f'decorated call: split keys '
+                f'of stream {nm} differ from split(fold_in(key, count), '
+                f'{n_})')
+        hand_out(L.key_data(src), ('split-source', nm, seed, count))
+        for j in range(n_):
+          hand_out(L.key_data(exp[j]), ('split', nm, seed, count, j))
+        model[nm][1] += 1
+      # whether the call returned or raised, the streams are restored
+      for nm, (seed, count) in model.items():
+        st_ = getattr(rngs, nm)
+        require(st_.key.value.shape == () and L.key_data(st_.key.value) ==
+                L.key_data(jax.random.key(seed)), lambda: f'after the '
+                f'split_rngs-decorated call (raised={raises}) stream {nm} '
+                f'holds a key of shape {st_.key.value.shape}, not its seed key')
+        require(int(st_.count.value) == count, lambda: f'after the decorated '
+                f'call (raised={raises}) stream {nm} resumes at count '
+                f'{int(st_.count.value)}, model says {count}')
+      labels.add('split-call-raises' if raises else 'split-call')
     elif op == 'restore':
       if backups is None:
         continue
